@@ -190,7 +190,7 @@ theorem nodup_map_inj {α β} (f : α → β) : ∀ (l : List α), (l.map f).Nod
 theorem recName_eq (r : Renames) (id : Str) : recName r id = (renameOf r id []).getD id := by
   unfold recName resolveRenamed
   by_cases h : hasRename r id = true
-  · simp [h]
+  · simp [h, minByKey]
   · have h' : hasRename r id = false := by simpa using h
     have hnone : renameOf r id [] = none := by
       unfold renameOf
